@@ -92,7 +92,7 @@ func (p *c10) Rule() string {
 	return "for each configuration family and each message position of DI, TO0, TO1, TO2 (requests towards the responders and responses towards the client roles; positions 65-71 as plaintext mutated by an authenticated rogue peer inside the tunnel): every structure-aware mutation (refcbor leaf x kind list incl. boundary integers, type changes, null/absent, length and count inflation) and byte-level mutation of the honest message, seeded random garbage up to 64 KiB, nesting/length bombs, and HTTP-level damage (content-length, authorization, method, path, message-type header, status); the endpoint holds the real session state of all preceding honest steps; non-trivial = the corrupted message was delivered; distinct = distinct (position, mutation, outcome, log hash)"
 }
 func (p *c10) DeadlockIsViolation() bool { return true }
-func (p *c10) Exhaustive(string) bool { return false }
+func (p *c10) Exhaustive(string) bool    { return false }
 func (p *c10) Components() map[string][]string {
 	return map[string][]string{
 		"real": {"http.Handler", "DI/TO0/TO1/TO2 responders", "fdo.DI/TO0Client/TO1/TO2 client roles", "http.Transport", "cbor decoder", "cose", "kex", "devmod owner module", "sqlite.DB (sql plans)"},
